@@ -6,11 +6,11 @@ CONST_GROUPS = ["mqtt"]
 STATELESS = True
 RULE = ("one case = one operation line: enc <packet> (EncodeTo), dec <max> <bytes> (DecodePacket on valid, truncated, "
         "inflated-length and random byte strings), refdec <packet> (broker encodes, paho.mqtt.golang decodes), refenc "
-        "<packet> (paho encodes, broker decodes). Packet values hit every type, flag combination, QoS 0-2 incl. will QoS, "
+        "<packet> (paho encodes, broker decodes), conc <g> <rounds> <size> (g goroutines encode their own PUBLISH concurrently into writers that take the frame in two halves; every frame must be the sequential encoding). Packet values hit every type, flag combination, QoS 0-2 incl. will QoS, "
         "lengths around 0, 127/128, 16383/16384 and the 64 KiB buffer limit. non-trivial = distinct line whose "
         "implementation answer is not 'err'")
 TRUSTED = ["github.com/eclipse/paho.mqtt.golang/packets as the independent MQTT 3.1.1 implementation (reference side of refdec/refenc)",
-           "sync.Pool buffer reuse in EncodeTo is modelled as a fresh 64 KiB buffer (aliasing between concurrent encoders is C10's concern)"]
+           "sync.Pool buffer reuse in EncodeTo is modelled as a fresh 64 KiB buffer (aliasing between concurrent encoders is sampled by the conc lines and by C10)"]
 ASSUMPTIONS = ["bufio.Reader / io.ReadFull deliver the stream bytes in order"]
 CLAIM = {
     "text": "Lean 4 theorems over the executable model of EncodeTo/DecodePacket for all 14 packet types: remaining-length round trip for every n < 2^28 across the 1/2/3/4-byte boundaries, string/uint16 field round trips, decode∘encode = id on well-formed packets of the types the broker emits and receives, decoder totality (ok | err | panic classified). Tied to /repo by regenerated constants (type codes, header and buffer sizes) and a differential run of the real codec against the compiled model, cross-checked in both directions with paho.mqtt.golang.",
@@ -161,4 +161,6 @@ def gen(rng, tier):
         ops.append("refdec " + w)
         ops.append("refenc " + w)
         ops.append("dec %d %s" % (rng.choice([65536, 65536, 1024, 64, 2, 0]), hx(rawpackets(rng))))
+    for _ in range(budget(tier, 3, 40)):
+        ops.append("conc %d %d %d" % (rng.choice([4, 8, 16]), rng.choice([50, 200]), rng.choice([10, 300, 5000])))
     return ops
